@@ -344,6 +344,10 @@ pub fn gen(tier: &str, seed: u64, out: &mut dyn Write) {
             }
         });
     }
+    if thorough {
+        // length 5 as well, glif pair, accepted at once (248 832 names)
+        enumerate(5, &mut |s| emit(out, s, "", ".glif", &Mode::Kth(0)));
+    }
     let mut rng = Rng::new(seed);
     // 2. random names, boundary-directed lengths, call-number closures and empty taken-sets
     let n = if thorough { 150_000 } else { 24_000 };
